@@ -1,5 +1,760 @@
-"""Symbolic charge bookkeeping (R-CHARGE). Filled in below."""
+"""Symbolic charge bookkeeping (R-CHARGE).
+
+A small abstract interpreter over straight-line code with sign-dependent branches. Charges are
+exact polynomials (sa/linform.py) over symbols; a leg is the pair (charges, qconj) and its
+*effective* charge is charges*qconj (what `get_charge` returns). Direction symbols (+-1) are
+enumerated concretely, so s*s = 1 needs no algebra. `make_valid` is the identity (all equalities
+are modulo the charge group). Hypothesis for a rank-2 operand `a`:
+eff(a.legs[0]) + eff(a.legs[1]) = a.qtotal on stored blocks.
+
+Obligation at every `Array([l1, l2], dtype, qtotal)` construction: eff(l1) + eff(l2) - qtotal == 0.
+"""
+import ast
+import itertools
+
+from .core import AnalysisError, dotted, key_text, stmts_of, unparse
+from .linform import C, NotPoly, Poly
+
+NPC = 'tenpy/linalg/np_conserved.py'
+CH = 'tenpy/linalg/charges.py'
+
+
+class Leg:
+    def __init__(self, charges, qc):
+        self.charges = charges
+        self.qc = qc
+
+    def eff(self):
+        return self.charges * self.qc
+
+    def copy(self):
+        return Leg(self.charges, self.qc)
+
+
+class Unknown:
+    def __repr__(self):
+        return '<?>'
+
+
+UNK = Unknown()
+ZERO = Poly.const(0)
+
+
+class Interp:
+    """config: dict name -> concrete value for sign symbols / None-ness of parameters."""
+
+    def __init__(self, func, signs, none_params=(), operand='a', consts=None):
+        self.f = func
+        self.signs = signs  # e.g. {'s0': 1, 's1': -1, 'inner_qconj': 1}
+        self.none = set(none_params)
+        self.operand = operand
+        self.env = {}
+        self.obligations = []  # (description, residual Poly, lineno)
+        self.notes = []
+        self.consts = consts or {}
+        self.path_conds = []
+
+    # --- operand model
+    def operand_leg(self, i):
+        s = Poly.const(self.signs['s%d' % i])
+        if i == 0:
+            e = Poly.sym('E0')
+        else:
+            # hypothesis: eff0 + eff1 = qtotal(a)
+            e = Poly.sym('qt_a') - Poly.sym('E0')
+        return Leg(e * s, s)
+
+    # --- expressions
+    def ev(self, node):
+        if isinstance(node, ast.Constant):
+            if node.value is None:
+                return None
+            if isinstance(node.value, (int, float)) and not isinstance(node.value, bool):
+                return Poly.const(node.value)
+            return UNK
+        if isinstance(node, ast.Name):
+            if node.id in self.env:
+                return self.env[node.id]
+            if node.id in self.none:
+                return None
+            if node.id in self.signs:
+                return Poly.const(self.signs[node.id])
+            return UNK
+        if isinstance(node, ast.UnaryOp) and isinstance(node.op, (ast.USub, ast.UAdd)):
+            v = self.ev(node.operand)
+            if isinstance(v, Poly):
+                return -v if isinstance(node.op, ast.USub) else v
+            return UNK
+        if isinstance(node, ast.BinOp) and isinstance(node.op, (ast.Add, ast.Sub, ast.Mult)):
+            a, b = self.ev(node.left), self.ev(node.right)
+            if isinstance(a, Poly) and isinstance(b, Poly):
+                if isinstance(node.op, ast.Add):
+                    return a + b
+                if isinstance(node.op, ast.Sub):
+                    return a - b
+                return a * b
+            return UNK
+        if isinstance(node, (ast.Tuple, ast.List)):
+            return [self.ev(e) for e in node.elts]
+        if isinstance(node, ast.Attribute):
+            base = node.value
+            d = dotted(node)
+            if d == self.operand + '.qtotal':
+                return Poly.sym('qt_a')
+            v = self.ev(base) if not (isinstance(base, ast.Name) and base.id == self.operand) \
+                else None
+            if isinstance(v, Leg):
+                if node.attr == 'charges':
+                    return v.charges
+                if node.attr == 'qconj':
+                    return v.qc
+                return UNK
+            if node.attr == 'qtotal' and isinstance(base, ast.Name) and base.id in self.env and \
+                    isinstance(self.env[base.id], dict):
+                return self.env[base.id].get('qtotal', UNK)
+            return UNK
+        if isinstance(node, ast.Subscript):
+            d = unparse(node)
+            if d == self.operand + '.legs[0]':
+                return self.operand_leg(0)
+            if d in (self.operand + '.legs[1]', self.operand + '.legs[-1]'):
+                return self.operand_leg(1)
+            v = self.ev(node.value)
+            if isinstance(v, list) and isinstance(node.slice, ast.Constant) and isinstance(
+                    node.slice.value, int) and -len(v) <= node.slice.value < len(v):
+                return v[node.slice.value]
+            return UNK
+        if isinstance(node, ast.Call):
+            return self.call(node)
+        if isinstance(node, ast.IfExp):
+            t = self.test(node.test)
+            if t is True:
+                return self.ev(node.body)
+            if t is False:
+                return self.ev(node.orelse)
+            return UNK
+        return UNK
+
+    def call(self, c):
+        fn = c.func
+        name = fn.attr if isinstance(fn, ast.Attribute) else (fn.id if isinstance(fn, ast.Name)
+                                                              else None)
+        if name == 'make_valid':
+            if not c.args:
+                return ZERO
+            v = self.ev(c.args[0])
+            return ZERO if v is None else v
+        if isinstance(fn, ast.Attribute):
+            recv = self.ev(fn.value)
+            if isinstance(recv, Leg):
+                if name == 'conj':
+                    return Leg(recv.charges, -recv.qc)
+                if name in ('copy', 'to_LegCharge'):
+                    return recv.copy()
+                if name == 'get_charge':
+                    return recv.eff()
+                if name == 'project':
+                    return [UNK, UNK, recv.copy()]
+                if name == 'flip_charges_qconj':
+                    return Leg(-recv.charges, -recv.qc)
+                return UNK
+        if name in ('from_qind', 'LegCharge') and (
+                dotted(fn) in ('LegCharge.from_qind', 'LegCharge', 'charges.LegCharge')):
+            args = list(c.args)
+            if len(args) >= 3:
+                ch = self.ev(args[2])
+                qc = self.ev(args[3]) if len(args) > 3 else Poly.const(1)
+                for k in c.keywords:
+                    if k.arg == 'qconj':
+                        qc = self.ev(k.value)
+                if isinstance(ch, Poly) and isinstance(qc, Poly):
+                    return Leg(ch, qc)
+            return UNK
+        if name in ('Array', 'zeros') and dotted(fn) in ('Array', 'zeros', 'npc.zeros'):
+            legs = self.ev(c.args[0]) if c.args else UNK
+            qt = self.ev(c.args[2]) if len(c.args) > 2 else None
+            for k in c.keywords:
+                if k.arg == 'qtotal':
+                    qt = self.ev(k.value)
+            if qt is None:
+                qt = ZERO
+            if isinstance(legs, list) and all(isinstance(l, Leg) for l in legs) and isinstance(
+                    qt, Poly):
+                res = ZERO
+                for l in legs:
+                    res = res + l.eff()
+                res = res - qt
+                self.obligations.append((unparse(c)[:90], res, c.lineno))
+            else:
+                self.obligations.append((unparse(c)[:90], None, c.lineno))
+            return {'qtotal': qt if isinstance(qt, Poly) else UNK}
+        return UNK
+
+    # --- tests
+    def test(self, node):
+        if isinstance(node, ast.Compare) and len(node.ops) == 1:
+            op = node.ops[0]
+            l, r = node.left, node.comparators[0]
+            if isinstance(r, ast.Constant) and r.value is None and isinstance(
+                    op, (ast.Is, ast.IsNot)):
+                v = self.ev(l)
+                if v is None:
+                    return isinstance(op, ast.Is)
+                if isinstance(v, (Poly, Leg, list, dict)):
+                    return isinstance(op, ast.IsNot)
+                return None
+            if isinstance(op, (ast.Eq, ast.NotEq)):
+                a, b = self.ev(l), self.ev(r)
+                if isinstance(a, Poly) and isinstance(b, Poly) and a.is_const() and b.is_const():
+                    eq = a == b
+                    return eq if isinstance(op, ast.Eq) else not eq
+            return None
+        if isinstance(node, ast.BoolOp):
+            vals = [self.test(v) for v in node.values]
+            if isinstance(node.op, ast.And):
+                if any(v is False for v in vals):
+                    return False
+                if all(v is True for v in vals):
+                    return True
+            else:
+                if any(v is True for v in vals):
+                    return True
+                if all(v is False for v in vals):
+                    return False
+            return None
+        if isinstance(node, ast.UnaryOp) and isinstance(node.op, ast.Not):
+            v = self.test(node.operand)
+            return None if v is None else not v
+        if isinstance(node, ast.Name) and node.id in self.consts:
+            return self.consts[node.id]
+        return None
+
+    # --- statements
+    def run(self):
+        self.block(self.f.body)
+
+    def block(self, stmts):
+        for st in stmts:
+            if self.stmt(st) == 'stop':
+                return 'stop'
+
+    def stmt(self, st):
+        if isinstance(st, ast.Assign):
+            v = self.ev(st.value)
+            for t in st.targets:
+                self.assign(t, v)
+        elif isinstance(st, ast.AugAssign):
+            if isinstance(st.target, ast.Name):
+                cur = self.env.get(st.target.id, UNK)
+                v = self.ev(st.value)
+                if isinstance(cur, Poly) and isinstance(v, Poly):
+                    if isinstance(st.op, ast.Add):
+                        self.env[st.target.id] = cur + v
+                    elif isinstance(st.op, ast.Sub):
+                        self.env[st.target.id] = cur - v
+                    elif isinstance(st.op, ast.Mult):
+                        self.env[st.target.id] = cur * v
+                    else:
+                        self.env[st.target.id] = UNK
+                else:
+                    self.env[st.target.id] = UNK
+        elif isinstance(st, ast.If):
+            t = self.test(st.test)
+            if t is True:
+                return self.block(st.body)
+            if t is False:
+                return self.block(st.orelse)
+            # unknown: run both on copies and merge (values differing -> UNK)
+            e0 = dict(self.env)
+            r1 = self.block(st.body)
+            e1 = self.env
+            self.env = dict(e0)
+            r2 = self.block(st.orelse)
+            e2 = self.env
+            merged = {}
+            for k in set(e1) | set(e2):
+                a, b = e1.get(k, UNK), e2.get(k, UNK)
+                merged[k] = a if _same(a, b) else UNK
+            if r1 == 'stop' and r2 != 'stop':
+                merged = e2
+            elif r2 == 'stop' and r1 != 'stop':
+                merged = e1
+            self.env = merged
+            if r1 == 'stop' and r2 == 'stop':
+                return 'stop'
+        elif isinstance(st, (ast.For, ast.While)):
+            # loops handle per-block numerics; names assigned inside become unknown
+            for n in ast.walk(st):
+                if isinstance(n, ast.Name) and isinstance(n.ctx, ast.Store):
+                    self.env[n.id] = UNK
+        elif isinstance(st, (ast.Return, ast.Raise)):
+            return 'stop'
+        elif isinstance(st, ast.Expr):
+            self.ev(st.value)
+        elif isinstance(st, ast.With):
+            return self.block(st.body)
+        return None
+
+    def assign(self, t, v):
+        if isinstance(t, ast.Name):
+            self.env[t.id] = v
+        elif isinstance(t, (ast.Tuple, ast.List)):
+            if isinstance(v, list) and len(v) == len(t.elts):
+                for e, x in zip(t.elts, v):
+                    self.assign(e, x)
+            else:
+                for e in t.elts:
+                    self.assign(e, UNK)
+        elif isinstance(t, ast.Attribute) and isinstance(t.value, ast.Name):
+            obj = self.env.get(t.value.id)
+            if isinstance(obj, Leg):
+                if t.attr == 'charges' and isinstance(v, Poly):
+                    obj.charges = v
+                elif t.attr == 'qconj' and isinstance(v, Poly):
+                    obj.qc = v
+                elif t.attr in ('charges', 'qconj'):
+                    self.env[t.value.id] = UNK
+
+
+def _same(a, b):
+    if isinstance(a, Poly) and isinstance(b, Poly):
+        return a == b
+    if a is None and b is None:
+        return True
+    if isinstance(a, Leg) and isinstance(b, Leg):
+        return a.charges == b.charges and a.qc == b.qc
+    return a is b
+
+
+def _run_cases(rep, m, qual, func, sign_names, none_cases, rule, operand='a', extra_signs=(),
+               min_obligations=1, consts_cases=({}, )):
+    """Enumerate sign cases x None-ness cases; every constructed Array must balance."""
+    n_ob = n_dis = 0
+    names = ['s0', 's1'] + list(sign_names)
+    reported = set()
+    for signs in itertools.product((1, -1), repeat=len(names)):
+        cfg = dict(zip(names, signs))
+        for none_params in none_cases:
+            for consts in consts_cases:
+                it = Interp(func, cfg, none_params, operand, consts)
+                # parameters that are symbolic charges
+                for p in extra_signs:
+                    pass
+                _bind_params(it, func, none_params, cfg)
+                it.run()
+                if len(it.obligations) < min_obligations:
+                    raise AnalysisError('%s: no Array construction reached in case %s %s' %
+                                        (qual, cfg, none_params))
+                for desc, residual, line in it.obligations:
+                    n_ob += 1
+                    case = {'function': qual, 'construction': desc, 'signs': cfg,
+                            'None': sorted(none_params), 'consts': consts}
+                    rep.instance(rule, case)
+                    if residual is None:
+                        raise AnalysisError('%s: cannot evaluate the charges of `%s` symbolically '
+                                            '(case %s)' % (qual, desc, cfg))
+                    if residual.is_zero():
+                        n_dis += 1
+                    else:
+                        key = 'charge-imbalance:' + desc[:50]
+                        if key in reported:
+                            continue
+                        reported.add(key)
+                        rep.violation(
+                            rule, m, qual, key,
+                            'for directions %s (None: %s) the legs of `%s` carry effective '
+                            'charges that differ from its total charge by [%r]: the factor is '
+                            'not charge-consistent (blocks violate the charge rule / factors '
+                            'are not contractible to the input)' %
+                            (cfg, sorted(none_params), desc, residual), line)
+    return n_ob, n_dis
+
+
+def _bind_params(it, func, none_params, cfg):
+    for a in func.args.args:
+        n = a.arg
+        if n in none_params or n in cfg or n == it.operand:
+            continue
+        it.env[n] = Poly.sym(n) if n.startswith('qtotal') or n in ('newqtotal', ) else UNK
+
+
+def check_factorization_charges(prog, rep, rule='CHARGE-factor'):
+    """_svd_worker, qr, orthogonal_columns: legs of the factors balance their total charges."""
+    m = prog.module(NPC)
+    rep.unit(m)
+    n_ob = n_dis = 0
+    # _svd_worker(a, full_matrices, compute_uv, overwrite_a, cutoff, qtotal_LR, inner_qconj)
+    f = m.func('_svd_worker')
+    a, b = _run_cases_svd(rep, m, f, rule)
+    n_ob += a
+    n_dis += b
+    f = m.func('qr')
+    a, b = _run_cases(rep, m, 'qr', f, ['inner_qconj'], [(), ('qtotal_Q', )], rule,
+                      min_obligations=2)
+    n_ob += a
+    n_dis += b
+    f = m.func('orthogonal_columns')
+    a, b = _run_cases_ortho(rep, m, f, rule)
+    n_ob += a
+    n_dis += b
+    return n_ob, n_dis
+
+
+def _run_cases_svd(rep, m, f, rule):
+    n_ob = n_dis = 0
+    reported = set()
+    for s0, s1, sq in itertools.product((1, -1), repeat=3):
+        cfg = {'s0': s0, 's1': s1, 'inner_qconj': sq}
+        it = Interp(f, cfg, (), 'a', consts={'full_matrices': False, 'compute_uv': True})
+        it.env['qtotal_LR'] = [Poly.sym('qt_a') - Poly.sym('qtotal_R'), Poly.sym('qtotal_R')]
+        # qi_R indexes blocks: get_charge(qi_R) is the effective charge of leg 1 on stored blocks
+        it.run()
+        if len(it.obligations) < 2:
+            raise AnalysisError('_svd_worker: constructions of U/VH not reached')
+        for desc, residual, line in it.obligations:
+            n_ob += 1
+            rep.instance(rule, {'function': '_svd_worker', 'construction': desc, 'signs': cfg})
+            if residual is None:
+                raise AnalysisError('_svd_worker: cannot evaluate `%s` symbolically' % desc)
+            if residual.is_zero():
+                n_dis += 1
+            elif desc not in reported:
+                reported.add(desc)
+                rep.violation(rule, m, '_svd_worker', 'charge-imbalance:' + desc[:50],
+                              'for directions %s the legs of `%s` differ from its total charge '
+                              'by [%r] (qtotal_L + qtotal_R = a.qtotal assumed): U / VH are not '
+                              'charge-consistent for a non-zero qtotal_LR or inner_qconj=-1' %
+                              (cfg, desc, residual), line)
+    return n_ob, n_dis
+
+
+def _run_cases_ortho(rep, m, f, rule):
+    n_ob = n_dis = 0
+    reported = set()
+    for s0, s1 in itertools.product((1, -1), repeat=2):
+        cfg = {'s0': s0, 's1': s1}
+        it = Interp(f, cfg, (), 'a', consts={})
+        # skip the early-return branches: M > N
+        it.env['left_leg'] = it.operand_leg(0)
+        body = [st for st in f.body if not (isinstance(st, ast.If) and (
+            'M < N' in unparse(st.test) or 'M == N' in unparse(st.test) or
+            'a.rank' in unparse(st.test)))]
+        it.block(body)
+        obs = [o for o in it.obligations]
+        if not obs:
+            raise AnalysisError('orthogonal_columns: construction not reached')
+        for desc, residual, line in obs:
+            n_ob += 1
+            rep.instance(rule, {'function': 'orthogonal_columns', 'construction': desc,
+                                'signs': cfg})
+            if residual is None:
+                raise AnalysisError('orthogonal_columns: cannot evaluate `%s`' % desc)
+            if residual.is_zero():
+                n_dis += 1
+            elif desc not in reported:
+                reported.add(desc)
+                rep.violation(rule, m, 'orthogonal_columns', 'charge-imbalance:' + desc[:50],
+                              'for directions %s the legs of `%s` differ from its total charge '
+                              'by [%r]' % (cfg, desc, residual), line)
+    return n_ob, n_dis
+
+
+# ------------------------------------------------------------------------------------------------
+# total charge of results: the documented function of the operands' total charges
+
+
+def _qtotal_arg(call):
+    if len(call.args) > 2:
+        return call.args[2]
+    for k in call.keywords:
+        if k.arg == 'qtotal':
+            return k.value
+    return None
+
+
+def _sym_eval(node, env):
+    """polynomial over source-text symbols; make_valid(x) -> x; locals substituted"""
+    if isinstance(node, ast.Call):
+        nm = node.func.attr if isinstance(node.func, ast.Attribute) else getattr(
+            node.func, 'id', None)
+        if nm == 'make_valid':
+            if not node.args:
+                return ZERO
+            return _sym_eval(node.args[0], env)
+        if nm in ('copy', ) and isinstance(node.func, ast.Attribute):
+            return _sym_eval(node.func.value, env)
+        if nm == 'get_charge':
+            return Poly.sym('eff(%s)' % unparse(node.func.value))
+        return Poly.sym(unparse(node))
+    if isinstance(node, ast.Name):
+        if node.id in env:
+            return env[node.id]
+        return Poly.sym(node.id)
+    if isinstance(node, (ast.Attribute, ast.Subscript)):
+        return Poly.sym(unparse(node))
+    if isinstance(node, ast.UnaryOp) and isinstance(node.op, ast.USub):
+        return -_sym_eval(node.operand, env)
+    if isinstance(node, ast.BinOp) and isinstance(node.op, (ast.Add, ast.Sub, ast.Mult)):
+        a, b = _sym_eval(node.left, env), _sym_eval(node.right, env)
+        return a + b if isinstance(node.op, ast.Add) else a - b if isinstance(
+            node.op, ast.Sub) else a * b
+    if isinstance(node, ast.Constant) and isinstance(node.value, (int, float)) and \
+            not isinstance(node.value, bool):
+        return Poly.const(node.value)
+    if isinstance(node, ast.Constant) and node.value is None:
+        return ZERO
+    raise NotPoly(unparse(node))
+
+
+def _local_env(f, upto=None):
+    env = {}
+    for st in stmts_of(f):
+        if upto is not None and st.lineno >= upto:
+            break
+        if isinstance(st, ast.Assign) and len(st.targets) == 1 and isinstance(
+                st.targets[0], ast.Name):
+            try:
+                env[st.targets[0].id] = _sym_eval(st.value, env)
+            except NotPoly:
+                env.pop(st.targets[0].id, None)
+    return env
+
+
+QTOTAL_SPEC = [
+    # (function, constructor call selector, expected polynomial as text over source symbols)
+    ('outer', 'a.qtotal + b.qtotal', 'sum for products'),
+    ('tensordot', 'a.qtotal + b.qtotal', 'sum for contractions'),
+    ('_tensordot_worker', 'a.qtotal + b.qtotal', 'sum for contractions'),
+    ('trace', 'a.qtotal', 'trace removes a contractible pair: unchanged'),
+    ('Array.add_leg', 'self.qtotal + eff(leg)', 'added index contributes its charge'),
+    ('orthogonal_columns', 'a.qtotal', 'same total charge as the input'),
+]
+
+
+def check_qtotal_forms(prog, rep, rule='CHARGE-qtotal'):
+    m = prog.module(NPC)
+    n_ob = n_dis = 0
+    for fn, expected, why in QTOTAL_SPEC:
+        f = m.func(fn)
+        want = _sym_eval(ast.parse(expected, mode='eval').body, {})
+        found = 0
+        for c in ast.walk(f):
+            if isinstance(c, ast.Call) and dotted(c.func) in ('Array', 'zeros'):
+                qa = _qtotal_arg(c)
+                if qa is None:
+                    continue
+                env = _local_env(f, upto=c.lineno)
+                try:
+                    got = _sym_eval(qa, env)
+                except NotPoly:
+                    raise AnalysisError('%s: total charge expression `%s` not understood' %
+                                        (fn, unparse(qa)))
+                found += 1
+                n_ob += 1
+                rep.instance(rule, {'function': fn, 'construction': unparse(c)[:80],
+                                    'qtotal': repr(got), 'documented': expected})
+                if got == want:
+                    n_dis += 1
+                else:
+                    rep.violation(rule, m, fn, 'qtotal-form:' + unparse(qa)[:40],
+                                  'the result of %s is built with total charge [%r]; documented: '
+                                  '%s = [%r]' % (fn, got, why, want), c.lineno)
+        if not found:
+            raise AnalysisError('%s: no Array construction with an explicit total charge' % fn)
+    # conj: negation
+    f = m.func('Array.conj')
+    n_ob += 1
+    sts = [s for s in stmts_of(f) if isinstance(s, ast.Assign) and
+           unparse(s.targets[0]).endswith('.qtotal')]
+    rep.instance(rule, {'function': 'Array.conj', 'store': [key_text(s) for s in sts]})
+    ok = len(sts) == 1
+    if ok:
+        x = unparse(sts[0].targets[0])
+        got = _sym_eval(sts[0].value, {})
+        ok = got == -Poly.sym(x)
+    if ok:
+        n_dis += 1
+        # all legs conjugated
+        if not any(isinstance(s, ast.Assign) and unparse(s.targets[0]).endswith('.legs') and
+                   isinstance(s.value, ast.ListComp) and unparse(s.value.elt).endswith('.conj()')
+                   for s in stmts_of(f)):
+            rep.violation(rule, m, 'Array.conj', 'legs-not-conjugated',
+                          'conj must replace every leg by its conj()', f.lineno)
+    else:
+        rep.violation(rule, m, 'Array.conj', 'qtotal-negation',
+                      'conjugation must negate the total charge', f.lineno)
+    # take_slice / squeeze: difference for removed indices
+    for fn, loopvar_src in (('Array.take_slice', 'axes'), ('Array.squeeze', 'axes')):
+        f = m.func(fn)
+        n_ob += 1
+        ok = False
+        for s in stmts_of(f):
+            if isinstance(s, ast.AugAssign) and unparse(s.target).endswith('.qtotal'):
+                rep.instance(rule, {'function': fn, 'update': key_text(s)})
+                from .core import parent
+                lp = parent(s)
+                if isinstance(s.op, ast.Sub) and isinstance(s.value, ast.Call) and isinstance(
+                        s.value.func, ast.Attribute) and s.value.func.attr == 'get_charge' and \
+                        isinstance(lp, ast.For) and loopvar_src in unparse(lp.iter):
+                    recv = unparse(s.value.func.value)
+                    tv = lp.target.elts[0] if isinstance(lp.target, ast.Tuple) else lp.target
+                    if recv == 'self.legs[%s]' % unparse(tv):
+                        ok = True
+        if ok:
+            n_dis += 1
+        else:
+            rep.violation(rule, m, fn, 'qtotal-difference',
+                          '%s must subtract the charge of every removed index from the total '
+                          'charge (difference for removed indices)' % fn, f.lineno)
+    # svd: qtotal_L + qtotal_R = a.qtotal on every path
+    f = m.func('svd')
+    env = {}
+    forms = []
+    for s in stmts_of(f):
+        if isinstance(s, ast.Assign) and isinstance(s.targets[0], ast.Name) and \
+                s.targets[0].id in ('qtotal_L', 'qtotal_R') and not isinstance(
+                    s.value, (ast.Name, ast.Tuple)):
+            try:
+                forms.append((s, s.targets[0].id, _sym_eval(s.value, {})))
+            except NotPoly:
+                pass
+    for s, name, form in forms:
+        n_ob += 1
+        other = 'qtotal_R' if name == 'qtotal_L' else 'qtotal_L'
+        rep.instance(rule, {'function': 'svd', 'assign': key_text(s)})
+        if form == Poly.sym('a.qtotal') - Poly.sym(other) or form == Poly.sym('a.qtotal'):
+            n_dis += 1
+        else:
+            rep.violation(rule, m, 'svd', 'qtotal_LR:' + name,
+                          '`%s`: the two factors must share the total charge, %s = a.qtotal - %s '
+                          '(got [%r])' % (key_text(s), name, other, form), s.lineno)
+    if len(forms) < 3:
+        raise AnalysisError('svd: qtotal_L/qtotal_R completion statements not found')
+    guard = [s for s in ast.walk(f) if isinstance(s, ast.If) and 'qtotal_L + qtotal_R' in unparse(
+        s.test) and any(isinstance(b, ast.Raise) for b in s.body)]
+    n_ob += 1
+    rep.instance(rule, {'function': 'svd', 'guard': bool(guard)})
+    if guard:
+        n_dis += 1
+    else:
+        rep.violation(rule, m, 'svd', 'qtotal_LR-guard',
+                      'explicit qtotal_LR that do not add up to a.qtotal must be rejected',
+                      f.lineno)
+    # qr: r gets the rest
+    f = m.func('qr')
+    n_ob += 1
+    ok = False
+    for c in ast.walk(f):
+        if isinstance(c, ast.Call) and dotted(c.func) == 'Array' and len(c.args) > 2:
+            try:
+                got = _sym_eval(c.args[2], {})
+            except NotPoly:
+                continue
+            if got == Poly.sym('a.qtotal') - Poly.sym('q.qtotal'):
+                ok = True
+    rep.instance(rule, {'function': 'qr', 'r_total': ok})
+    if ok:
+        n_dis += 1
+    else:
+        rep.violation(rule, m, 'qr', 'qtotal-R', 'R must carry a.qtotal - Q.qtotal', f.lineno)
+    # inner: early exit when the total charges do not cancel
+    f = m.func('_inner_worker')
+    n_ob += 1
+    ok = False
+    for s in stmts_of(f):
+        if isinstance(s, ast.Assign) and isinstance(s.value, ast.IfExp) and \
+                unparse(s.value.test) == 'do_conj':
+            try:
+                t = _sym_eval(s.value.body, {})
+                e = _sym_eval(s.value.orelse, {})
+            except NotPoly:
+                continue
+            A, B = Poly.sym('a.qtotal'), Poly.sym('b.qtotal')
+            if (t == B - A or t == A - B) and e == A + B:
+                ok = True
+    rep.instance(rule, {'function': '_inner_worker', 'ok': ok})
+    if ok:
+        n_dis += 1
+    else:
+        rep.violation(rule, m, '_inner_worker', 'qtotal-check',
+                      'inner(a, b) vanishes unless qtotal(b) -/+ qtotal(a) = 0 (minus iff '
+                      'do_conj)', f.lineno)
+    return n_ob, n_dis
+
+
+def check_gauge(prog, rep, rule='CHARGE-gauge'):
+    """gauge_total_charge: eff_new - eff_old = newqtotal - qtotal in all four direction cases."""
+    m = prog.module(NPC)
+    f = m.func('Array.gauge_total_charge')
+    n_ob = n_dis = 0
+    for so, sn in itertools.product((1, -1), repeat=2):
+        it = Interp(f, {'s0': so, 's1': 1}, (), 'self')
+        it.env['old_qconj'] = Poly.const(so)
+        it.env['new_qconj'] = Poly.const(sn)
+        old = Leg(Poly.sym('E0') * Poly.const(so), Poly.const(so))
+        # interpret the arithmetic statements only
+        it.env['chdiff'] = None
+        for st in stmts_of(f):
+            if isinstance(st, ast.Assign) and isinstance(st.targets[0], ast.Name):
+                nm = st.targets[0].id
+                if nm == 'chdiff':
+                    v = _sym_eval(st.value, {'newqtotal': Poly.sym('newqtotal')})
+                    it.env['chdiff'] = v
+                elif nm == 'new_charges':
+                    src = unparse(st.value)
+                    if 'self.legs[ax].charges' in src:
+                        e = dict(it.env)
+                        v = _sym_eval(st.value, {'old_qconj': Poly.const(so),
+                                                 'chdiff': it.env['chdiff']})
+                        # substitute the operand charges
+                        v = _subst(v, 'self.legs[ax].charges', old.charges)
+                        it.env['new_charges'] = v
+                    elif src.startswith('-') and isinstance(it.env.get('new_charges'), Poly):
+                        from .core import parent
+                        g = parent(st)
+                        if isinstance(g, ast.If):
+                            cond = it.test(g.test)
+                            if cond is None:
+                                raise AnalysisError('gauge_total_charge: sign test not evaluable')
+                            if cond:
+                                it.env['new_charges'] = -it.env['new_charges']
+                    elif 'make_valid' in src:
+                        pass
+        nc = it.env.get('new_charges')
+        if not isinstance(nc, Poly) or not isinstance(it.env.get('chdiff'), Poly):
+            raise AnalysisError('gauge_total_charge: charge arithmetic not understood')
+        # constructed leg: from_qind(chinfo, slices, new_charges, new_qconj)
+        mk = [c for c in ast.walk(f) if isinstance(c, ast.Call) and
+              dotted(c.func) == 'LegCharge.from_qind']
+        if not mk or unparse(mk[0].args[2]) != 'new_charges' or \
+                unparse(mk[0].args[3]) != 'new_qconj':
+            raise AnalysisError('gauge_total_charge: new leg construction not found')
+        eff_new = nc * Poly.const(sn)
+        eff_old = old.eff()
+        want = Poly.sym('newqtotal') - Poly.sym('self.qtotal')
+        n_ob += 1
+        rep.instance(rule, {'old_qconj': so, 'new_qconj': sn, 'delta_eff': repr(eff_new - eff_old)})
+        if (eff_new - eff_old) == want:
+            n_dis += 1
+        else:
+            rep.violation(rule, m, 'Array.gauge_total_charge', 'gauge:%+d:%+d' % (so, sn),
+                          'for old_qconj=%+d, new_qconj=%+d the effective charge of the gauged '
+                          'leg changes by [%r] but the total charge by [%r]: blocks no longer '
+                          'satisfy the charge rule' % (so, sn, eff_new - eff_old, want), f.lineno)
+    return n_ob, n_dis
+
+
+def _subst(poly, sym, value):
+    out = ZERO
+    for mono, c in poly.t.items():
+        term = Poly({(): c})
+        for s in mono:
+            term = term * (value if s == sym else Poly.sym(s))
+        out = out + term
+    return out
 
 
 def check_charge_c02(prog, rep):
-    return 0, 0
+    a1, b1 = check_qtotal_forms(prog, rep)
+    a2, b2 = check_gauge(prog, rep)
+    return a1 + a2, b1 + b2
